@@ -42,7 +42,7 @@ def post(info):
         return 'no fill occurred'
 
 
-PART = Part('histories', 'machine', run_case, machine=_machine, quick=1200, thorough=64000, quick_shards=8,
+PART = Part('histories', 'machine', run_case, machine=_machine, quick=3000, thorough=64000, quick_shards=8,
             steps=(40, 60))
 PART.new_harness = new_harness
 PARTS = [PART]
